@@ -1,5 +1,5 @@
 #!/bin/bash
-# tools/seeded_par.sh [lanes] [tier]
+# tools/seeded_par.sh [lanes] [tier] [name-regex]
 # Regression of every seeded change in parallel lanes.  Each lane owns a scratch worktree of /repo and a scratch copy
 # of the engine (under /tmp/seeded_lanes, removed at the end), so /repo itself is never touched.  Every case a check
 # reports under a change is afterwards replayed against the unchanged /repo with the main engine: anything that still
@@ -12,7 +12,7 @@ BASE=/tmp/seeded_lanes
 export CARGO_NET_OFFLINE=true
 rm -rf "$BASE"; git -C /repo worktree prune
 mkdir -p "$BASE/results"
-names=( $(ls "$ROOT/seeded") )
+names=( $(ls "$ROOT/seeded" | grep -E "${3:-.}") )
 (cd "$ROOT" && ./check build >/dev/null 2>&1) || { echo "engine build failed"; exit 2; }
 
 lane() {
